@@ -63,6 +63,34 @@ func (hf *HashFetcher) VerifC17IsFinished(h *HashSet) bool                      
 func (hf *HashFetcher) VerifC17Last() *types.BlockInfo                              { return hf.lastBlockInfo }
 func (hf *HashFetcher) VerifC17ReqCount() uint64                                    { return hf.reqCount }
 
+func (hf *HashFetcher) VerifC17Start()                                              { hf.Start() }
+func (hf *HashFetcher) VerifC17Stop()                                               { hf.stop() }
+
+// VerifC17Exited returns a channel that is closed when the HashFetcher goroutine has returned.
+func (hf *HashFetcher) VerifC17Exited() <-chan struct{} {
+	ch := make(chan struct{})
+	go func() { hf.waitGroup.Wait(); close(ch) }()
+	return ch
+}
+
+// VerifC17Offer is GetHahsesRsp that gives up when the goroutine has exited (the real method would
+// block for ever on the unbuffered channel). Reports whether GetHahsesRsp returned.
+func (hf *HashFetcher) VerifC17Offer(m *message.GetHashesRsp, exited <-chan struct{}) bool {
+	done := make(chan struct{})
+	go func() {
+		// if the fetcher is stopped while this offer is still waiting, the real stop() closes the channel
+		defer func() { _ = recover() }()
+		hf.GetHahsesRsp(m)
+		close(done)
+	}()
+	select {
+	case <-done:
+		return true
+	case <-exited:
+		return false
+	}
+}
+
 // ---- BlockFetcher / BlockProcessor
 
 // VerifC17NewBlockFetcher is newBlockFetcher with a buffered hash-set channel, so that a
@@ -159,6 +187,12 @@ func (syncer *Syncer) VerifC17HandleMessage(msg interface{}) { syncer.handleMess
 func (syncer *Syncer) VerifC17VerifySeq(msg interface{}) bool { return syncer.verifySeq(msg) }
 func (syncer *Syncer) VerifC17IsRunning() bool               { return syncer.isRunning }
 func (syncer *Syncer) VerifC17SetSeq(seq uint64)             { syncer.Seq = seq }
+func (syncer *Syncer) VerifC17Target() uint64 {
+	if syncer.ctx == nil {
+		return 0
+	}
+	return syncer.ctx.TargetNo
+}
 func (syncer *Syncer) VerifC17HasParts() (finder, hashFetcher, blockFetcher bool) {
 	return syncer.finder != nil, syncer.hashFetcher != nil, syncer.blockFetcher != nil
 }
